@@ -443,9 +443,12 @@ def t_pulses(eng):
     f = eng.get_fnode(Q)
     loops = loops_of(f)
     inner = for_over(f, 'enumerate(self.segments[:-1])')
-    first_stmt = find_stmt(f, lambda x: isinstance(x, ast.Assign) and ast.unparse(x.targets[0]).replace(' ', '') == 'self.end_segs[0]'
-                           and x in f.body)
-    k0 = f.body.index(first_stmt)
+    # the slice is everything after the end-matching loop (so that a statement put between the two halves is executed too)
+    outer = [st for st in f.body if isinstance(st, ast.For) and 'endpoints' in ast.unparse(st.iter)]
+    if len(outer) != 1:
+        from pyvc.source import Unresolved
+        raise Unresolved('the end-matching loop of compute_connections')
+    k0 = f.body.index(outer[0]) + 1
     state = {}
 
     def on_entry(eng_, init):
@@ -505,9 +508,13 @@ def t_pulses(eng):
     eng.loop_specs[(Q, loops.index(inner))] = spec
     env = {'self': me, 'parent': c.parent}
     eng.frames.append({'fref': eng.fref(Q), 'env': env, 'qual': Q, 'node': f})
+    from pyvc.engine import _Return
     try:
-        for st in f.body[k0:]:
-            eng.exec_stmt(st, env)
+        try:
+            for st in f.body[k0:]:
+                eng.exec_stmt(st, env)
+        except _Return:
+            pass            # an early return: the postconditions below apply to it all the same
     finally:
         eng.frames.pop()
     eng.cover('pulses-%d%d' % (kinds[0], kinds[1]))
